@@ -4,8 +4,12 @@ package props
 
 import (
 	"encoding/json"
+	"fmt"
+	"strconv"
 	"strings"
+	"sync"
 	"testing"
+	"time"
 
 	"pgregory.net/rapid"
 )
@@ -68,5 +72,106 @@ func init() {
 			return d
 		}
 		return ""
+	})
+}
+
+// ---- a stored checkpoint that lies beyond the vBucket's current high seqno (bucket flushed / restored / failed over hard) ----
+// Whatever the library does then (today: it refuses to start, C15), it never requests a stream from - or persists - a
+// tuple that is not one event's own position: the stored tuple as it is, or nothing. Child process per case (the refusal
+// is a fail-stop); the scenarios are C15's "checkpoint above" class with generated snapshot shapes.
+func c06ExecAhead(sc c15Scenario) (string, bool) {
+	r := runChild("c15", sc, 90*time.Second)
+	lo, hi := sc.rangeOf()
+	n := hi - lo + 1
+	if r.TimeOut {
+		return "", false
+	}
+	refused := r.Exit != 0
+	for _, l := range strings.Split(r.Stdout, "\n") {
+		f := strings.Fields(l)
+		if len(f) != 7 || f[0] != "OPEN" {
+			continue
+		}
+		vb, _ := strconv.Atoi(f[1])
+		start, _ := strconv.ParseUint(f[2], 10, 64)
+		snapS, _ := strconv.ParseUint(f[4], 10, 64)
+		snapE, _ := strconv.ParseUint(f[5], 10, 64)
+		i := vb - lo
+		if i < 0 || i >= n {
+			continue
+		}
+		rel := sc.Rel[i%len(sc.Rel)]
+		if rel == 9 {
+			continue // no stored checkpoint: the start position is C02's
+		}
+		stored := int64(sc.High[i%len(sc.High)]) + int64(rel)
+		if stored < 0 {
+			stored = 0
+		}
+		if start < snapS || start > snapE {
+			return fmt.Sprintf("vb %d: stream requested from seq %d with snapshot [%d,%d] - the seqno lies outside its snapshot (stored checkpoint: seq %d [%d,%d], vBucket high seqno %d): a mixture of two positions", vb, start, snapS, snapE, stored, stored, stored, sc.High[i%len(sc.High)]), refused
+		}
+		if start != uint64(stored) || snapS != uint64(stored) || snapE != uint64(stored) {
+			return fmt.Sprintf("vb %d: stream requested from seq %d [%d,%d], the stored checkpoint is seq %d [%d,%d] (vBucket high seqno %d): not the position of any event", vb, start, snapS, snapE, stored, stored, stored, sc.High[i%len(sc.High)]), refused
+		}
+	}
+	return "", refused
+}
+
+func TestC06_AheadCheckpoint(t *testing.T) {
+	n := scale(32, 400)
+	_, nsh := shard()
+	var scs []c15Scenario
+	rapid.Check(t, func(rt *rapid.T) {
+		if len(scs) > 0 {
+			return
+		}
+		for i := 0; i < (n+nsh-1)/nsh; i++ {
+			sc := c15Scenario{NumVb: rapid.SampledFrom([]int{8, 16}).Draw(rt, "numvb"), Membership: "static", Reset: rapid.SampledFrom([]string{"earliest", "latest"}).Draw(rt, "reset")}
+			sc.Total = rapid.IntRange(1, 3).Draw(rt, "total")
+			sc.Member = rapid.IntRange(1, sc.Total).Draw(rt, "member")
+			sc.High = rapid.SliceOfN(rapid.IntRange(0, 40), 1, 6).Draw(rt, "high")
+			sc.Rel = rapid.SliceOfN(rapid.SampledFrom([]int{-2, -1, 0, 0, 9}), 1, 6).Draw(rt, "rel")
+			sc.Rel[rapid.IntRange(0, len(sc.Rel)-1).Draw(rt, "which")] = rapid.SampledFrom([]int{1, 1, 5}).Draw(rt, "over")
+			scs = append(scs, sc)
+		}
+	})
+	type res struct {
+		d       string
+		refused bool
+	}
+	out := make([]res, len(scs))
+	var wg sync.WaitGroup
+	sem := make(chan struct{}, 12)
+	for i := range scs {
+		wg.Add(1)
+		go func(i int) {
+			defer wg.Done()
+			sem <- struct{}{}
+			defer func() { <-sem }()
+			out[i].d, out[i].refused = c06ExecAhead(scs[i])
+		}(i)
+	}
+	wg.Wait()
+	for i, o := range out {
+		if o.d != "" {
+			violation(t, "C06", "c06ahead", scs[i], "%s", o.d)
+		}
+		labs := []string{"checkpoint_ahead_cases"}
+		if o.refused {
+			labs = append(labs, "checkpoint_ahead_refused")
+		}
+		record("C06", scs[i], true, labs...)
+	}
+}
+
+func init() {
+	registerReplay("c06ahead", func(raw json.RawMessage) string {
+		var sc c15Scenario
+		if err := json.Unmarshal(raw, &sc); err != nil {
+			return err.Error()
+		}
+		d, _ := c06ExecAhead(sc)
+		return d
 	})
 }
